@@ -69,3 +69,4 @@ package r2
 //@   ghost px float64, py float64
 //@   requires vcRectOK(r) && vcProbe(px, py) && margin.X >= 0 && margin.X <= 1e300 && margin.Y >= 0 && margin.Y <= 1e300
 //@   ensures [kept] r.ContainsPoint(Point{px, py}) ==> result.ContainsPoint(Point{px, py})
+//@   ensures [empty-stays-empty] r.IsEmpty() ==> result.IsEmpty()
